@@ -788,6 +788,21 @@ void mon_disconnect(const Run& run, const Ix&, Verdicts& v, vu::Result& res) {
             }
         }
         if (sent_somewhere) res.count("disconnects_on_the_wire");
+        // ... and the DISCONNECT is written whenever there was a connection to write it on: a connection of this incarnation that
+        // was established at least one (virtual) second before the operation completed and stayed healthy during that second
+        if (d.completions && !sent_somewhere) {
+            for (auto& c : h.conns) {
+                if (!c.established || c.seq_begin > next_run || c.t_established + 1 * SEC > d.t_done) continue;
+                if (c.t_closed >= 0 && c.t_closed < std::max(t0, c.t_established) + 1 * SEC && c.closed_by != "client") continue;
+                if (c.faulted && c.t_fault < std::max(t0, c.t_established) + 1 * SEC) continue;
+                if (c.t_closed >= 0 && c.seq_closed < s0) continue;
+                bool hostile = false;
+                for (auto& b : h.bpkts) if (b.conn == c.id && (b.kind == BKind::hostile || b.kind == BKind::spurious || !b.wellformed || b.pkt.type == ref::DISCONNECT)) hostile = true;
+                if (hostile) continue;
+                v.add("C09", "C09:disconnect-never-written", op_str(d) + ": completed without a DISCONNECT on the wire although connection " + std::to_string(c.id) + " was established at " + std::to_string(c.t_established / 1e9) + " s and healthy");
+                break;
+            }
+        }
         // other outstanding operations
         for (auto& o : h.ops) {
             if (o.id == d.id || o.seq_init > s0 || (o.completions && o.seq_done < s0)) continue;
